@@ -255,7 +255,7 @@ func decode(c *mon.Case, items []item) ([]call, bool) {
 		acc["readevent_calls"]++
 		if stuck {
 			c.Violation("nonterminating-decode:no-progress",
-				fmt.Sprintf("one readEvent call burnt %.0f s of CPU without reading a byte and without returning", spinCPU), wit(nil))
+				fmt.Sprintf("one readEvent call burnt %.1f s of CPU without reading a byte and without returning", spinCPU), wit(nil))
 			return calls, false
 		}
 		if res.overread {
